@@ -115,6 +115,7 @@ def run_case(prop, case, model):
         case = materialise(prop, case)
         ops = ops_from_json(dec(case["ops"]))
         py = prop.make_py() if hasattr(prop, "make_py") else execs.PyExec()
+        py.case = case
         replies = []
         div, py = execs.run_history(ops, model, py=py, replies=replies, expander=getattr(prop, "expand_ops", None))
         res.divergence = div
